@@ -1102,8 +1102,13 @@ def run(ctx):
                 "same component staged by the real StageReference (data/d1:link, data/f1.txt:link, :copy of both, the "
                 "link to a producer directory) and get members beneath / onto / through those names (files, dirs, "
                 "symlinks, hardlinks, descending archive links to them, hardlinks to files behind them); "
+                "the sandbox holds siblings of the working directory and of the instance directory whose names extend the "
+                "target's name (comp-x, compx, comp.bak; new.instance-shared, .bak, 2) or are a prefix of it: absolute "
+                "member names, symlink/hardlink targets (absolute, ../sibling) and manifest link sources point there; "
                 "(b) manifests of 1-4 entries (keys nested / with .. / absolute / ./ and //; copy and link methods; "
-                "directory, file and missing sources; keys nested under linked keys; conf linked) loaded with the real "
+                "directory, file and missing sources; keys nested under linked keys; conf linked; keys linked to a "
+                "prefix-named sibling of the instance directory or to a directory of the instance itself, with nested "
+                "keys below) loaded with the real "
                 "Manifest.validate (or not) and deployed by the real expandPackageToDirectory; (c) copy/copyout/link "
                 "staging of a file or directory with existing same-name file/dir/link. non-trivial = the operation "
                 "reached the code under test (reference exists); distinct by canonical JSON of the case. Every case: "
